@@ -19,6 +19,7 @@ import (
 
 	"github.com/gin-gonic/gin"
 	"github.com/prometheus/client_golang/prometheus"
+	_ "github.com/prometheus/prometheus/discovery/install" // as cmd/kvass/main.go does
 	"github.com/sirupsen/logrus"
 
 	"tkestack.io/kvass/pkg/prom"
@@ -217,6 +218,11 @@ func (s *Sidecar) GetSamples(job string, detail bool) (map[string]*scrape.Statis
 
 func (s *Sidecar) PushConfig(raw string) error {
 	return decode(s.do("POST", "/api/v1/status/config/", &shard.UpdateConfigRequest{RawContent: raw}), nil)
+}
+
+// ReloadFile asks a file-mode sidecar to re-read its configuration file.
+func (s *Sidecar) ReloadFile() error {
+	return decode(s.do("POST", "/-/reload/", nil), nil)
 }
 
 func (s *Sidecar) PushExtra(c *prom.ExtraConfig) error {
